@@ -26,7 +26,10 @@ OLD_ATIME = BASE - 100000
 class World:
     """A real TemplateLookup over temp directories with a simulated clock."""
 
-    def __init__(self, ndirs, size, fsc, moddir=False, base=None):
+    def __init__(self, ndirs, size, fsc, moddir=False, base=None, symlinks=False):
+        # symlinks: every template path inside a lookup directory is a symbolic link to a file kept elsewhere (the file
+        # is rewritten / deleted in place: the link stays) -- the same abstract file system, another concrete one
+        self.symlinks = symlinks
         import mako.codegen as cg
         import mako.lookup as ml
         import mako.util as mu
@@ -113,7 +116,13 @@ class World:
             kind = "ok" if kind else "broken"
         self.ver += 1
         p = os.path.join(self.dirs[d - 1], u)
-        with open(p, "w") as f:
+        if self.symlinks:
+            store = os.path.join(self.root, "store")
+            os.makedirs(store, exist_ok=True)
+            target = os.path.join(store, "d%d_%s" % (d, u))
+            if not os.path.islink(p):
+                os.symlink(target, p)
+        with open(p, "w") as f:          # through the link, if it is one
             f.write("${ broken" if kind == "broken" else ("%s-v%d" % (u, self.ver)))
         if kind == "unreadable":
             self.unreadable.add(os.path.abspath(p))
@@ -127,7 +136,10 @@ class World:
         p = os.path.join(self.dirs[d - 1], u)
         if not os.path.exists(p):
             return None
-        os.remove(p)
+        if self.symlinks and self.ver % 2:
+            os.remove(os.path.realpath(p))       # the file goes, a dangling link stays
+        else:
+            os.remove(p)
         self.unreadable.discard(os.path.abspath(p))
         return {"ev": "delete", "d": d, "u": u}
 
@@ -227,8 +239,8 @@ MACROS = [
 ]
 
 
-def record(rng, n_ops, ndirs, uris, size, fsc, moddir, allow_put, base=None):
-    w = World(ndirs, size, fsc, moddir, base=base)
+def record(rng, n_ops, ndirs, uris, size, fsc, moddir, allow_put, base=None, symlinks=False):
+    w = World(ndirs, size, fsc, moddir, base=base, symlinks=symlinks)
     ev = []
 
     def do(op, u, d, v=None):
@@ -279,9 +291,9 @@ def trace_cfg(ndirs, uris, size, fsc, moddir):
 
 
 # --------------------------------------------------------------------------- R: replay behaviours
-def replay_behaviour(steps, ndirs, size, fsc, moddir, base=None):
+def replay_behaviour(steps, ndirs, size, fsc, moddir, base=None, symlinks=False):
     """steps: [(action, state)] from a simulate file.  Returns None or a mismatch description."""
-    w = World(ndirs, size, fsc, moddir, base=base)
+    w = World(ndirs, size, fsc, moddir, base=base, symlinks=symlinks)
     try:
         for idx, (act, st) in enumerate(steps):
             last = st["last"]
@@ -476,7 +488,7 @@ def check(run):
             raise MachineryError("simulate produced %d of %d behaviours" % (len(files), num))
         for fn in files:
             steps = core.parse_simulate_file(os.path.join(simdir, fn))
-            mm = replay_behaviour(steps, nd, size, fsc, moddir, base=run.scratch)
+            mm = replay_behaviour(steps, nd, size, fsc, moddir, base=run.scratch, symlinks=replayed % 3 == 2)
             replayed += 1
             run.transitions += len(steps)
             if mm:
@@ -514,7 +526,7 @@ def check(run):
         traces = []
         for _ in range(n):
             tid += 1
-            traces.append({"id": tid, "events": record(run.rng, ops, nd, uris, size, fsc, moddir, True, base=run.scratch)})
+            traces.append({"id": tid, "events": record(run.rng, ops, nd, uris, size, fsc, moddir, True, base=run.scratch, symlinks=tid % 3 == 0)})
         # negative controls: a corrupted field and a deleted event must be rejected
         ncs = []
         for t in traces:
@@ -559,7 +571,8 @@ def check(run):
     run.assumptions += [
         "time is simulated: mako.codegen.time and mako.util.timeit are interposed; file mtimes are set with os.utime",
         "Template constructions are counted by a subclass installed as mako.lookup.Template",
-        "unreadable files are not exercised (the sandbox runs as root)",
+        "unreadable files are simulated by interposing mako.util.read_file (the sandbox runs as root)",
+        "in every third history the template paths are symbolic links to files kept outside the lookup directories (rewritten / deleted in place)",
     ]
     return {"rule": "TLC exhaustive on bounded Lookup.tla instances; -simulate behaviours replayed action by action on a real "
                     "TemplateLookup (simulated clock); seeded random histories recorded from the real TemplateLookup and validated "
